@@ -1231,5 +1231,68 @@ theorem src_in_grid_nd {α : Type} [Field α] [LinearOrder α] [IsStrictOrderedR
   cases Interp.idx g 0 <;> simp [Interp.Res.bind, in_grid_nd_low, in_grid_nd_high, Rel.num]
   cases g.getLast? <;> simp
 
+/-- every adjacent pair of the list stands in the relation the source has at the site -/
+def adjacentAll {α : Type} [LT α] [LE α] [DecidableLT α] [DecidableLE α] (r : Src.Rel) : List α → Bool
+  | [] => true
+  | [_] => true
+  | a :: b :: t => (r.num a b == some true) && adjacentAll r (b :: t)
+
+
+/-- the model's one `strictlyIncreasing` is the `windows(2).all(|w| w[0] < w[1])` the source has for this axis -/
+theorem src_sorted_1d_x {α : Type} [Field α] [LinearOrder α] [IsStrictOrderedRing α] [Lit α] [LawfulLit α] (l : List α) :
+    Interp.strictlyIncreasing l = adjacentAll sorted_1d_x l := by
+  induction l using Interp.strictlyIncreasing.induct with
+  | case1 => rfl
+  | case2 => rfl
+  | case3 a b r ih => simp [Interp.strictlyIncreasing, adjacentAll, ih, sorted_1d_x, Rel.num]
+
+/-- the model's one `strictlyIncreasing` is the `windows(2).all(|w| w[0] < w[1])` the source has for this axis -/
+theorem src_sorted_2d_x {α : Type} [Field α] [LinearOrder α] [IsStrictOrderedRing α] [Lit α] [LawfulLit α] (l : List α) :
+    Interp.strictlyIncreasing l = adjacentAll sorted_2d_x l := by
+  induction l using Interp.strictlyIncreasing.induct with
+  | case1 => rfl
+  | case2 => rfl
+  | case3 a b r ih => simp [Interp.strictlyIncreasing, adjacentAll, ih, sorted_2d_x, Rel.num]
+
+/-- the model's one `strictlyIncreasing` is the `windows(2).all(|w| w[0] < w[1])` the source has for this axis -/
+theorem src_sorted_2d_y {α : Type} [Field α] [LinearOrder α] [IsStrictOrderedRing α] [Lit α] [LawfulLit α] (l : List α) :
+    Interp.strictlyIncreasing l = adjacentAll sorted_2d_y l := by
+  induction l using Interp.strictlyIncreasing.induct with
+  | case1 => rfl
+  | case2 => rfl
+  | case3 a b r ih => simp [Interp.strictlyIncreasing, adjacentAll, ih, sorted_2d_y, Rel.num]
+
+/-- the model's one `strictlyIncreasing` is the `windows(2).all(|w| w[0] < w[1])` the source has for this axis -/
+theorem src_sorted_3d_x {α : Type} [Field α] [LinearOrder α] [IsStrictOrderedRing α] [Lit α] [LawfulLit α] (l : List α) :
+    Interp.strictlyIncreasing l = adjacentAll sorted_3d_x l := by
+  induction l using Interp.strictlyIncreasing.induct with
+  | case1 => rfl
+  | case2 => rfl
+  | case3 a b r ih => simp [Interp.strictlyIncreasing, adjacentAll, ih, sorted_3d_x, Rel.num]
+
+/-- the model's one `strictlyIncreasing` is the `windows(2).all(|w| w[0] < w[1])` the source has for this axis -/
+theorem src_sorted_3d_y {α : Type} [Field α] [LinearOrder α] [IsStrictOrderedRing α] [Lit α] [LawfulLit α] (l : List α) :
+    Interp.strictlyIncreasing l = adjacentAll sorted_3d_y l := by
+  induction l using Interp.strictlyIncreasing.induct with
+  | case1 => rfl
+  | case2 => rfl
+  | case3 a b r ih => simp [Interp.strictlyIncreasing, adjacentAll, ih, sorted_3d_y, Rel.num]
+
+/-- the model's one `strictlyIncreasing` is the `windows(2).all(|w| w[0] < w[1])` the source has for this axis -/
+theorem src_sorted_3d_z {α : Type} [Field α] [LinearOrder α] [IsStrictOrderedRing α] [Lit α] [LawfulLit α] (l : List α) :
+    Interp.strictlyIncreasing l = adjacentAll sorted_3d_z l := by
+  induction l using Interp.strictlyIncreasing.induct with
+  | case1 => rfl
+  | case2 => rfl
+  | case3 a b r ih => simp [Interp.strictlyIncreasing, adjacentAll, ih, sorted_3d_z, Rel.num]
+
+/-- the model's one `strictlyIncreasing` is the `windows(2).all(|w| w[0] < w[1])` the source has for this axis -/
+theorem src_sorted_nd {α : Type} [Field α] [LinearOrder α] [IsStrictOrderedRing α] [Lit α] [LawfulLit α] (l : List α) :
+    Interp.strictlyIncreasing l = adjacentAll sorted_nd l := by
+  induction l using Interp.strictlyIncreasing.induct with
+  | case1 => rfl
+  | case2 => rfl
+  | case3 a b r ih => simp [Interp.strictlyIncreasing, adjacentAll, ih, sorted_nd, Rel.num]
+
 end C14
 end Compass
